@@ -147,7 +147,7 @@ func (self *TextCommandConverter) ConvertArgs2Flag(lockCommand *LockCommand, arg
 				lockCommand.Expried = uint16(expried)
 				lockCommand.ExpriedFlag |= EXPRIED_FLAG_MILLISECOND_TIME
 			} else {
-				lockCommand.Expried = uint16(expried)
+				lockCommand.Expried = uint16((expried + 999) / 1000)
 			}
 			i++
 		case "TX":
@@ -188,7 +188,7 @@ func (self *TextCommandConverter) ConvertArgs2Flag(lockCommand *LockCommand, arg
 				lockCommand.Timeout = uint16(timeout)
 				lockCommand.TimeoutFlag |= TIMEOUT_FLAG_MILLISECOND_TIME
 			} else {
-				lockCommand.Timeout = uint16(timeout)
+				lockCommand.Timeout = uint16((timeout + 999) / 1000)
 			}
 			i++
 		case "NX":
